@@ -54,7 +54,16 @@ def filter_source(cell, variant):
     return f"{{{{ {left} | {cell['f']}{args} }}}}|{{% assign z = {left} | {cell['f']}{args} %}}{{{{ z | size }}}}", data
 
 
-def tag_source(cell):
+def tag_source(cell, variant=0):
+    src, data = _tag_source(cell)
+    if variant == 1:      # operands written as LITERALS where the kind can be written down (a quoted 'abc' as a loop offset ...)
+        for name in ("x", "y"):
+            if cell[name] in LITERAL:
+                src = re.sub(r"(?<![\w'%])" + name + r"(?![\w'])", LITERAL[cell[name]], src)
+    return src, data
+
+
+def _tag_source(cell):
     data = {"arr": [1, 2, 3]}
     bind(data, "x", cell["x"])
     bind(data, "y", cell["y"])
@@ -111,7 +120,7 @@ def replay_cell(job):
     if cell["part"] == "filter":
         src, data = filter_source(cell, variant)
     elif cell["part"] == "tagarg":
-        src, data = tag_source(cell)
+        src, data = tag_source(cell, variant)
     elif cell["part"] == "source":
         src, data = "".join(cell["s"]), {"a": "A"}
     else:
